@@ -51,6 +51,7 @@ let types = List.map (fun (t, l) -> (ostr_of t, l)) D.d_types
 
 type cse = { cn : D.cls -> D.string; wiring : (D.nat * D.cls) list; t0 : D.trec; imem : D.inst -> D.nat -> bool;
              t2 : D.trec; imem2 : D.inst -> D.nat -> bool;      (* the second type of '~' elements *)
+             ttype : D.trec option;      (* the record of the builtin type Type (None: the case's own type IS Type) *)
              cast_id : int; threads : string list list; seed : int }
 
 let parse_case line : cse =
@@ -73,7 +74,8 @@ let parse_case line : cse =
     let t0 = D.cold_type cache_num (List.mapi (fun pos (c, _) -> (names.(c), nat_of_int pos)) dl) in
     let imem2 i m = let i = int_of_nat i and m = int_of_nat m in
       i < Array.length masks && m < 3 && ((masks.(i) lxor 5) lsr m) land 1 = 1 in
-    { cn; wiring; t0; imem; t2 = t0; imem2; cast_id = find_at "Cast";
+    let type_decl = List.mapi (fun pos (n, _) -> (n, nat_of_int pos)) (List.assoc "Type" types) in
+    { cn; wiring; t0; imem; t2 = t0; imem2; ttype = Some (D.cold_type cache_num type_decl); cast_id = find_at "Cast";
       threads = List.map words (String.split_on_char '/' ops); seed = int_of_string seed }
   | [ "B"; tname; _; ops; seed ] ->
     let insts = List.assoc tname types in
@@ -82,6 +84,7 @@ let parse_case line : cse =
       t0 = D.cold_type cache_num (D.builtin_decl insts); imem = D.builtin_imem insts;
       t2 = (let i2 = List.assoc (if tname = "Int" then "Float" else "Int") types in D.cold_type cache_num (D.builtin_decl i2));
       imem2 = D.builtin_imem (List.assoc (if tname = "Int" then "Float" else "Int") types);
+      ttype = (if tname = "Type" then None else Some (D.cold_type cache_num (D.builtin_decl (List.assoc "Type" types))));
       cast_id = idx 0 objects; threads = List.map words (String.split_on_char '/' ops); seed = int_of_string seed }
   | _ -> failwith "bad case"
 
@@ -112,6 +115,7 @@ let result cs (l, m, rest) (v : D.inst option) : string =
       | D.MRaise D.ClassError -> "ClassError;noinv" | D.MRaise D.ValueError -> "ValueError;noinv" | D.MCrash -> "CRASH")
   | 'h' | 'g' | 'H' | 'G' -> if D.implements_method_result cs.imem v (nat_of_int m) then "1" else "0"
   | 'c' -> (match D.cast_result cs.imem v (nat_of_int 0) (nat_of_int (if rest = "=" then 0 else 1)) with
+      (* c~: the target is a distinct type object (same name, other identity): like c!.  c^ is handled by the caller *)
       | D.CSelf -> "self" | D.CCustom i -> Printf.sprintf "custom%d" (int_of_nat i mod 16)
       | D.CRaise D.ValueError -> "ValueError;noinv" | D.CRaise D.ClassError -> "ClassError;noinv")
   | _ -> failwith "bad op letter"
@@ -157,9 +161,35 @@ let () =
            | [ ops ] ->
              let ok = ref true in
              let t2 = ref cs.t2 in
+             let ttr = ref (match cs.ttype with Some tt -> tt | None -> cs.t0) in
              let _ = List.fold_left (fun (t, first) tok ->
                  if not first then Buffer.add_char buf ' ';
-                 if tok.[0] = 'S' then begin
+                 if tok = "z" then begin                      (* the harness makes the record cold again *)
+                   Buffer.add_string buf (if mode = "spec" then "z=cold" else "z=cold" ^ dump cs.t0); (cs.t0, false)
+                 end else if tok = "w" then begin             (* type_of(a type object) is Type *)
+                   Buffer.add_string buf (if mode = "spec" then "w=Type" else "w=Type" ^ dump t); (t, false)
+                 end else if tok = "c^" then begin
+                   (* an object of the same-name twin (a type without instances) cast to T: another identity *)
+                   let r = (match D.cast_result cs.imem None (nat_of_int 1) (nat_of_int 0) with
+                       | D.CSelf -> "self" | D.CCustom _ -> "custom" | D.CRaise _ -> "ValueError;noinv") in
+                   Buffer.add_string buf (if mode = "spec" then tok ^ "=" ^ r else tok ^ "=" ^ r ^ dump t); (t, false)
+                 end else if tok.[0] = 't' || tok.[0] = 'u' then begin
+                   (* instance(T, c) / implements(T, c) with the type object as OBJECT: a lookup on Type's record *)
+                   let c = nat_of_int (int_of_string (String.sub tok 1 (String.length tok - 1))) in
+                   let kind = if tok.[0] = 't' then D.KInstance else D.KScan in
+                   let show v = if tok.[0] = 't' then vstr v else if v = None then "0" else "1" in
+                   if mode = "spec" then begin
+                     let trips = (match cs.ttype with Some tt -> tt.D.trips | None -> cs.t0.D.trips) in
+                     Buffer.add_string buf (tok ^ "=" ^ show (D.spec_lookup cs.cn trips c)); (t, false)
+                   end else
+                     match cs.ttype with
+                     | None -> (match D.lookup cs.cn cs.wiring kind c t with
+                         | D.ROk (t', v) -> Buffer.add_string buf (tok ^ "=" ^ show v ^ dump t'); (t', false)
+                         | _ -> Buffer.add_string buf (tok ^ "=CORRUPT"); (t, false))
+                     | Some _ -> (match D.lookup cs.cn cs.wiring kind c !ttr with
+                         | D.ROk (t', v) -> ttr := t'; Buffer.add_string buf (tok ^ "=" ^ show v ^ dump t); (t, false)
+                         | _ -> Buffer.add_string buf (tok ^ "=CORRUPT"); (t, false))
+                 end else if tok.[0] = 'S' then begin
                    if mode = "spec" then begin
                      Buffer.add_string buf (tok ^ "=" ^ seq_result cs (fun second c ->
                          D.spec_lookup cs.cn (if second then cs.t2 else cs.t0).D.trips (nat_of_int c)) tok); (t, false)
